@@ -69,3 +69,19 @@ Theorem C08_quoting_wraps : forall c fuel d o,
     Ok (tag [98;108;111;99;107;113;117;111;116;101] ++ nl ++ o ++ ctag [98;108;111;99;107;113;117;111;116;101] ++ nl)%N.
 Proof. exact quoting_wraps. Qed.
 Print Assumptions C08_quoting_wraps.
+
+(* the law applied n times (the property's "also applied n times: nested quotes"), for EVERY n and
+   every document of the fragment: iter_quote n prefixes every line n times, wrap_n n wraps the
+   conversion in n blockquote elements (definitions in proofs/SpecQuoteIter.v, 8 lines) *)
+Require Import GM.proofs.SpecQuoteIter.
+Theorem C08_quoting_wraps_n_times : forall n c fuel d o,
+  hardwraps c = false -> qdoc fuel d = true ->
+  ConvertModel c (md_of false false d) = Ok o ->
+  ConvertModel c (iter_quote n (md_of false false d)) = Ok (wrap_n n o).
+Proof. exact quoting_wraps_n. Qed.
+Print Assumptions C08_quoting_wraps_n_times.
+(* and the step behind it: quoting the spelling of a document is the spelling of its quote *)
+Theorem C08_quoted_spelling_is_spelling_of_quote : forall fuel d, qdoc fuel d = true ->
+  quote_lines (md_of false false d) = md_of false false (cons (BQuote 0 d) nil).
+Proof. exact quote_lines_md. Qed.
+Print Assumptions C08_quoted_spelling_is_spelling_of_quote.
